@@ -288,4 +288,34 @@ func c01Run(c *fw.Ctx, i int) {
 	}
 	kinds(doc.Nodes())
 	c01Check(c, specs, c.R.Bool(), "random")
+	// several different documents written and read back by 8 goroutines at
+	// once (buffers, pools and tables shared between calls): every text and
+	// every tree must be what a lone caller gets
+	if k%10 == 0 {
+		var forests [][]*gen.Spec
+		var docs []*gedcom.Document
+		for q := 0; q < 12; q++ {
+			o2 := o
+			o2.ForceTag, o2.ChainDeep = tags[(k+q*37)%len(tags)], (k+q*13)%100
+			f := gen.RandomForest(c.R, o2)
+			forests = append(forests, f)
+			d, _ := gen.Build(f, q%2 == 0)
+			docs = append(docs, d)
+		}
+		trip := func(d *gedcom.Document) string {
+			text := d.String()
+			dec, err := gedcom.NewDocumentFromString(text)
+			if err != nil {
+				return text + "\n=> " + err.Error()
+			}
+			return text + "\n=> " + dec.String()
+		}
+		c.Count("parallel-evaluations", int64(8*len(docs)))
+		if q, par, alone := fw.ParallelThenAlone(8, len(docs), func(q int) string { return trip(docs[q]) }, func(q int) string {
+			d, _ := gen.Build(forests[q], q%2 == 0)
+			return trip(d)
+		}); q >= 0 {
+			c.Violation("parallel-evaluation-differs", fmt.Sprintf("a document written and read back while 7 other goroutines write and read other documents:\n%s\nalone:\n%s", clip(par, 500), clip(alone, 500)), map[string]interface{}{"text": alone})
+		}
+	}
 }
